@@ -23,9 +23,9 @@ func H_C04_update() {
 	structured := vxrt.Param("struct", 0) == 1
 	gen := func(label string) string {
 		if structured {
-			return structText(label, vxrt.Param("lines", 2))
+			return vxStructText(label, vxrt.Param("lines", 2))
 		}
-		return symText(label, n, ascii)
+		return vxSymText(label, n, ascii)
 	}
 	big := vxrt.Param("big", 0)
 	for i := 0; i < k; i++ {
@@ -38,12 +38,12 @@ func H_C04_update() {
 			}
 			old[i] = string(filler) + "\n" + old[i]
 		}
-		content += frame(names[i]+" - 1", escapeRef(old[i]))
+		content += vxFrame(names[i]+" - 1", vxEscapeRef(old[i]))
 	}
-	writeFile(path, content)
+	vxWriteFile(path, content)
 
 	upd := WithConfig(Dir(dir), Filename("f"), Update(true))
-	kind := kindSnapshot
+	kind := vxKindSnapshot
 	if structured {
 		vxrt.YAMLAssume(true)
 		kind = vxrt.Choice("kind", 2) // MatchSnapshot or MatchYAML
@@ -54,18 +54,18 @@ func H_C04_update() {
 		if (big == 0 || i > 0) && vxrt.Bool("changes") {
 			changed[i] = true
 			newv[i] = gen("new")
-			vxrt.Assume(differs(old[i], newv[i]))
+			vxrt.Assume(vxDiffers(old[i], newv[i]))
 			if vxrt.Param("known_K1", 1) == 1 {
-				vxrt.Assume(vxrt.Not(k1EscapeAlias(old[i], newv[i])))
+				vxrt.Assume(vxrt.Not(vxK1EscapeAlias(old[i], newv[i])))
 			}
 		} else {
 			newv[i] = old[i]
 		}
 	}
 	for i := 0; i < k; i++ {
-		t := newT(names[i])
+		t := vxNewT(names[i])
 		stamp := vxrt.FSStamp()
-		doCall(upd, t, kind, newv[i])
+		vxDoCall(upd, t, kind, newv[i])
 		t.end()
 		vxrt.Assert(len(t.errors) == 0, "C04:update-run-no-error")
 		if changed[i] {
@@ -80,16 +80,16 @@ func H_C04_update() {
 	// the file is exactly the frames with the new values, in place, no residue
 	want := ""
 	for i := 0; i < k; i++ {
-		want += frame(names[i]+" - 1", escapeRef(newv[i]))
+		want += vxFrame(names[i]+" - 1", vxEscapeRef(newv[i]))
 	}
-	vxrt.Assert(vxrt.Eq(readFile(path), want), "C04:file-is-exactly-the-new-frames")
+	vxrt.Assert(vxrt.Eq(vxReadFile(path), want), "C04:file-is-exactly-the-new-frames")
 
 	// read-only run passes completely, without writing
 	ro := WithConfig(Dir(dir), Filename("f"), Update(false))
 	stamp := vxrt.FSStamp()
 	for i := 0; i < k; i++ {
-		t := newT(names[i])
-		doCall(ro, t, kind, newv[i])
+		t := vxNewT(names[i])
+		vxDoCall(ro, t, kind, newv[i])
 		t.end()
 		vxrt.Assert(len(t.errors) == 0 && len(t.logs) == 0, "C04:read-only-run-passes")
 	}
@@ -101,21 +101,68 @@ func H_C04_standalone() {
 	vxrt.CI(false)
 	dir := vxrt.Dir()
 	n := vxrt.Param("n", 3)
-	old := symText("old", n, true)
-	newv := symText("new", n, true)
-	vxrt.Assume(differs(old, newv))
-	writeFile(dir+"/TestS_1.snap", old)
+	old := vxSymText("old", n, true)
+	newv := vxSymText("new", n, true)
+	vxrt.Assume(vxDiffers(old, newv))
+	vxWriteFile(dir+"/TestS_1.snap", old)
 	upd := WithConfig(Dir(dir), Update(true))
-	t := newT("TestS")
+	t := vxNewT("TestS")
 	upd.MatchStandaloneSnapshot(t, newv)
 	t.end()
 	vxrt.Assert(len(t.errors) == 0 && len(t.logs) == 1, "C04:standalone-updated")
-	vxrt.Assert(vxrt.Eq(readFile(dir+"/TestS_1.snap"), newv), "C04:standalone-file-is-new-value")
+	vxrt.Assert(vxrt.Eq(vxReadFile(dir+"/TestS_1.snap"), newv), "C04:standalone-file-is-new-value")
 	ro := WithConfig(Dir(dir), Update(false))
 	stamp := vxrt.FSStamp()
-	t2 := newT("TestS")
+	t2 := vxNewT("TestS")
 	ro.MatchStandaloneSnapshot(t2, newv)
 	t2.end()
 	vxrt.Assert(len(t2.errors) == 0 && len(t2.logs) == 0, "C04:standalone-read-only-passes")
 	vxrt.Assert(vxrt.FSStamp() == stamp, "C04:standalone-read-only-writes-nothing")
+}
+
+// H_C04_layouts: snapshot files whose layout is not exactly what the library writes (hand-edited,
+// merged, written by an older version): no newline after the last end marker, no blank line
+// between entries, extra blank lines, CRLF between entries. An update of the first, middle or last
+// entry replaces that entry's value and no other: every entry replays afterwards (the updated one
+// with its new value) in a read-only execution.
+func H_C04_layouts() {
+	vxrt.CI(false)
+	vxrt.EnvFixed("NO_COLOR", "1")
+	dir := vxrt.Dir()
+	path := dir + "/f.snap"
+	ids := []string{"TestA - 1", "TestB - 1", "TestC - 1"}
+	old := []string{"a-old", "b-old\nsecond", "c-old"}
+	var content string
+	switch vxrt.Choice("layout", 5) {
+	case 0: // as written by the library
+		content = vxFrame(ids[0], old[0]) + vxFrame(ids[1], old[1]) + vxFrame(ids[2], old[2])
+	case 1: // no newline at the very end
+		content = vxFrame(ids[0], old[0]) + vxFrame(ids[1], old[1]) + "\n[" + ids[2] + "]\n" + old[2] + "\n---"
+	case 2: // no blank line before the headers
+		content = "[" + ids[0] + "]\n" + old[0] + "\n---\n[" + ids[1] + "]\n" + old[1] + "\n---\n[" + ids[2] + "]\n" + old[2] + "\n---\n"
+	case 3: // extra blank lines between entries
+		content = "\n\n" + vxFrame(ids[0], old[0]) + "\n\n" + vxFrame(ids[1], old[1]) + "\n" + vxFrame(ids[2], old[2]) + "\n\n"
+	default: // a file that ends right after the last end marker of a one-line entry, twice
+		content = vxFrame(ids[0], old[0]) + vxFrame(ids[1], old[1]) + vxFrame(ids[2], old[2])
+		content = content[:len(content)-1]
+	}
+	vxWriteFile(path, content)
+	target := vxrt.Choice("updated-entry", 3)
+	names := []string{"TestA", "TestB", "TestC"}
+	upd := WithConfig(Dir(dir), Filename("f"), Update(true))
+	tu := vxNewT(names[target])
+	upd.MatchSnapshot(tu, "fresh value")
+	tu.end()
+	vxrt.Assert(len(tu.errors) == 0 && len(tu.logs) == 1, "C04:update-reports-updated")
+	ro := WithConfig(Dir(dir), Filename("f"), Update(false))
+	for k := range names {
+		t := vxNewT(names[k])
+		want := old[k]
+		if k == target {
+			want = "fresh value"
+		}
+		ro.MatchSnapshot(t, want)
+		t.end()
+		vxrt.Assert(len(t.errors) == 0 && len(t.logs) == 0, "C04:every-entry-replays-after-the-update")
+	}
 }
